@@ -583,7 +583,9 @@ theorem mk?_ok_periodic (p k : ℕ) (l : List K) (tol : K) (h0 : 0 ≤ tol) (hp 
     have t4 : ((l.length : Int) + (-(p : Int) - (k : Int) - 1 + (i : Int))).toNat = l.length - p - k - 1 + i := by omega
     rw [t1, t2, t3, t4, hget, hget, hget, hget, hg i hi', sub_self, abs_zero]
     exact h0
-  simp only [hmax, h1, h2, if_false]
+  have h2' : ¬ ((k : Int) ≥ 0 ∧ ((l.toArray.size : ℕ) : Int) < (p : Int) + (k : Int) + 1) := by
+    simp only [List.size_toArray]; omega
+  simp only [hmax, h1, h2, h2', if_false]
   have hk0 : (k : Int) ≥ 0 := by omega
   simp only [hk0, true_and]
   rw [h4]
@@ -872,11 +874,14 @@ theorem continuity_split_inrange (B : Basis K) (tol : K) (htol : 0 < tol) (A C :
     · rw [List.mem_replicate] at h; rw [h.2]; linarith
     · have := hC y h; linarith
   unfold Basis.continuity
-  have h2 : ¬ (x < B.start ∨ B.stop < x) := by
+  have h2 : ¬ (x < B.start - tol ∨ B.stop + tol < x) := by
+    rintro (h | h)
+    · exact absurd hin.1 (not_le.mpr (by linarith))
+    · exact absurd hin.2 (not_le.mpr (by linarith))
+  have h2' : ¬ (x < B.start ∨ x > B.stop) := by
     rintro (h | h)
     · exact absurd hin.1 (not_le.mpr h)
     · exact absurd hin.2 (not_le.mpr h)
-  have h2' : ¬ (x < B.start ∨ x > B.stop) := h2
   have h3 : ¬ (A.length + c = A.length) := by omega
   by_cases hp : B.periodic ≥ 0
   · simp only [hp, h2', if_true, if_false, hhi, hlo, h3]
